@@ -1,9 +1,8 @@
-\* C01 quick: one 3-slice ReliableOrdered message; every subset / order of deliveries of the 6 data packets
-\* (first transmission and one retransmission) and of the acks, then heal (with or without loss) and good rounds.
+\* C02 thorough: 3-slice message with acks, retransmission, loss at heal
 SPECIFICATION Spec
 CONSTANTS
-  ChSC <- Ch_RO
-  ChCS <- Ch_RO
+  ChSC <- Ch_RU
+  ChCS <- Ch_RU
   Budget = 60000
   Workload <- WL_RO_3slices
   MaxFlushS = 1
@@ -16,8 +15,8 @@ CONSTANTS
   Bound = 3
   HealLose = {TRUE, FALSE}
   Reorder = TRUE
-  RecvAnywhere = FALSE
-  PropsOn <- P_C01
+  RecvAnywhere = TRUE
+  PropsOn <- P_C02
   Export = TRUE
 INVARIANT NoFlag
 INVARIANT ExportInv
